@@ -191,11 +191,11 @@ Fixpoint change_dec (fs : list field) (kv : list (string * json)) : res (list cf
   | [] => Ok []
   | Field _ n _ ft :: fr =>
       rbind (match ft with
-             | TStr => match lookup n kv with
+             | TStr => match lookup_f (names f_Change) n kv with
                        | None => Ok (CStr "")
                        | Some j => rbind (dec TStr j) (fun v => match v with VStr s => Ok (CStr s) | _ => Unmodelled end)
                        end
-             | TPtr TOSMRef => match lookup n kv with
+             | TPtr TOSMRef => match lookup_f (names f_Change) n kv with
                                | None | Some JNull => Ok (COsm None)
                                | Some j => rmap (fun o => COsm (Some o)) (osm_unmarshal j)
                                end
